@@ -22,23 +22,23 @@ type vc13Kind string
 // Transport behaviours.  The first two deliver a complete body with status
 // 200; every other one is a fault named in the property statement.
 const (
-	vc13OKNew      vc13Kind = "ok_new"
-	vc13OKSame     vc13Kind = "ok_same"
-	vc13ConnClose  vc13Kind = "conn_close"
-	vc13HangHdr    vc13Kind = "hang_hdr"
-	vc13HangBody   vc13Kind = "hang_body"
-	vc13S404       vc13Kind = "s404"
-	vc13S500       vc13Kind = "s500"
-	vc13Empty      vc13Kind = "empty"
-	vc13Oversize   vc13Kind = "oversize"
+	vc13OKNew     vc13Kind = "ok_new"
+	vc13OKSame    vc13Kind = "ok_same"
+	vc13ConnClose vc13Kind = "conn_close"
+	vc13HangHdr   vc13Kind = "hang_hdr"
+	vc13HangBody  vc13Kind = "hang_body"
+	vc13S404      vc13Kind = "s404"
+	vc13S500      vc13Kind = "s500"
+	vc13Empty     vc13Kind = "empty"
+	vc13Oversize  vc13Kind = "oversize"
 
 	// vc13OversizeChunked and vc13OversizeClose are complete bodies over the
 	// size limit that do not announce their length: chunked transfer coding,
 	// and HTTP/1.0-style delimiting by the end of the connection.
 	vc13OversizeChunked vc13Kind = "oversize_chunked"
 	vc13OversizeClose   vc13Kind = "oversize_close"
-	vc13ShortCL    vc13Kind = "short_cl"
-	vc13ChunkTrunc vc13Kind = "chunk_trunc"
+	vc13ShortCL         vc13Kind = "short_cl"
+	vc13ChunkTrunc      vc13Kind = "chunk_trunc"
 )
 
 // vc13FaultKinds are all faulty transport behaviours.
